@@ -303,6 +303,59 @@ func runFaultPlan(t *Trace, faults []FaultSpec, st *Stats) (out faultOutcome, v 
 				return out, viol("session/finalize-failed/fault-free", "Finalize failed without a fault: %v", ferr)
 			}
 			finalized = true
+		case "restart_clean", "restart_final":
+			// prior history: close the instance and reopen the same file (disk-backed read-write stores only)
+			if finalized || ss != nil {
+				continue
+			}
+			before := ft.faultsHit()
+			if op.Kind == "restart_final" {
+				var ferr error
+				if pv := safeCall(func() { ferr = store.Finalize() }); pv != nil {
+					return out, viol("fault/panic/finalize", "Finalize panicked: %v", pv)
+				}
+				if ft.faultsHit() > before {
+					if ferr == nil {
+						return out, viol("fault/error-swallowed/finalize", "op #%d Finalize (before a restart): the underlying writer failed but Finalize returned nil", i)
+					}
+					out.vacuous = true
+					return out, nil
+				}
+				if ferr != nil {
+					if lastFaultOp >= 0 {
+						out.vacuous = true
+						return out, nil
+					}
+					return out, viol("session/finalize-failed/fault-free", "Finalize failed without a fault: %v", ferr)
+				}
+			} else {
+				store.Discard()
+			}
+			var oerr error
+			if pv := safeCall(func() { store, oerr = OpenStore(env, cfg) }); pv != nil {
+				return out, viol("fault/panic/reopen", "reopen panicked: %v", pv)
+			}
+			sim.CurrentFS = env.FS
+			if oerr != nil {
+				if ft.faultsHit() > before || lastFaultOp >= 0 {
+					// the fault was reported by the open; the caller carries on by opening again (the fault is transient)
+					lastFaultOp = i
+					if pv := safeCall(func() { store, oerr = OpenStore(env, cfg) }); pv != nil {
+						return out, viol("fault/panic/reopen", "second reopen panicked: %v", pv)
+					}
+					sim.CurrentFS = env.FS
+					if oerr != nil {
+						out.vacuous = true
+						return out, nil
+					}
+					st.Probe("fault:reopen-retried-ok")
+					continue
+				}
+				return out, viol("resume/refused/matching", "reopening the same file failed without a fault: %v", oerr)
+			}
+			if ft.faultsHit() > before {
+				return out, viol("fault/error-swallowed/reopen", "op #%d: a write fault while resuming was not reported: the open returned nil", i)
+			}
 		default:
 			panic(&InfraError{"fault: unknown op " + op.Kind})
 		}
@@ -336,6 +389,9 @@ func faultLocus(lens []int, ops []int, idx int, t *Trace) string {
 		return "open"
 	}
 	k := t.Ops[op-1].Kind
+	if k == "restart_clean" || k == "restart_final" {
+		return "restart"
+	}
 	if k == "put" {
 		ord := 0
 		for q := 0; q < idx; q++ {
@@ -511,6 +567,21 @@ func faultFreeWrites(t *Trace) (lens []int, ops []int) {
 				store.Finalize()
 			}
 			finalized = true
+		case "restart_clean", "restart_final":
+			if finalized || ss != nil {
+				continue
+			}
+			if op.Kind == "restart_final" {
+				store.Finalize()
+			} else {
+				store.Discard()
+			}
+			ns, err := OpenStore(env, cfg)
+			if err != nil {
+				panic(&InfraError{"fault-free reopen failed: " + err.Error()})
+			}
+			sim.CurrentFS = env.FS
+			store = ns
 		}
 	}
 	if disk != nil {
@@ -539,6 +610,13 @@ func GenC16(seed uint64, run int) *Trace {
 	}
 	t := &Trace{Prop: "C16", Engine: "fault", Seed: seed, Run: run, Cfg: cfg}
 	alpha := genAlphabet(r, r.Range(1, 5), false)
+	if (store == "rw" || store == "sc") && r.Chance(1, 3) {
+		// prior history: an earlier session on the same file, closed by Discard or Finalize, then resumed
+		for i, n := 0, r.Range(0, 3); i < n; i++ {
+			t.Ops = append(t.Ops, Op{Kind: "put", Blks: []BlkSpec{Pick(r, alpha)}})
+		}
+		t.Ops = append(t.Ops, Op{Kind: Pick(r, []string{"restart_clean", "restart_final"})})
+	}
 	for i, n := 0, r.Range(1, 6); i < n; i++ {
 		t.Ops = append(t.Ops, Op{Kind: "put", Blks: []BlkSpec{Pick(r, alpha)}})
 	}
